@@ -139,6 +139,29 @@ func checkC02Case(c *Case, rep *core.Report) {
 			}
 		}
 	}
+	// the same reads on a Reader that has already served Info(): asking for the summary first must not
+	// change what a read returns (in particular not turn a fall-back scan into an empty one)
+	for _, v := range []readVariant{{"Info() followed by Messages()", nil, mcap.FileOrder}, {"Info() followed by Messages(UsingIndex(false))", []mcap.ReadOpt{mcap.UsingIndex(false)}, mcap.FileOrder}} {
+		ir := drive.ReadMessages(bytes.NewReader(data), drive.IterOpts{Opts: v.opts, InfoFirst: true})
+		rep.Count("reads_after_info", 1)
+		if ir.Panic != nil {
+			rep.Violate("indexed-panic", fmt.Sprintf("%s: %s panicked: %v", c.Describe(), v.name, ir.Panic), c.Witness())
+			return
+		}
+		if err := ir.Failed(); err != nil {
+			if indexed || len(v.opts) > 0 {
+				rep.Violate("read-after-info-error", fmt.Sprintf("%s: %s failed: %v", c.Describe(), v.name, err), c.Witness())
+				return
+			}
+			rep.Count("fallback_clause_error_returned", 1)
+			continue
+		}
+		if !eqStrings(scanKeys, tripleKeys(ir.Triples)) {
+			rep.Violate("silent-partial-read-after-info", fmt.Sprintf("%s: %s returned %d messages without error, the sequential scan of a fresh Reader returns %d: %s", c.Describe(), v.name, len(ir.Triples), len(scan.Triples),
+				firstDiff(scanKeys, tripleKeys(ir.Triples))), c.Witness())
+			return
+		}
+	}
 	// two iterators of ONE Reader consumed alternately, with random access in between: each must still
 	// see its own complete result (they share the Reader's ReadSeeker)
 	if indexed {
